@@ -21,4 +21,4 @@ def run(ctx):
         meta_rule="every transition of the TLC state graph of MutableWorld scenarios 1-2 executed on 3 overlay world "
                   "constructions via its shortest prefix + random walks; distinct = distinct (scenario, impl, op path)",
         assumptions=["tag values are strings", "RemoveTag on a missing feature is not generated (unspecified)"],
-        focused=(250, 4000))
+        focused=(250, 1200))
